@@ -11,18 +11,18 @@ package coq
 // internal data-structure invariants (they never depend on the translated
 // program): assumed here, not checked at call sites; listed in the evidence.
 
-//@ func (buffer).indentation
+//@ func (buffer).indentation (pp)
 //@   trusted_requires [indentation level stays small and non-negative: Indent calls are balanced] 0 <= pp.indentLevel && pp.indentLevel < 0x100000
 //@   may_reject
 //@   noframe
-//@ func (BinaryExpr).Coq
+//@ func (BinaryExpr).Coq (be, needs_paren)
 //@   trusted_requires [operators only come from the translator's operator tables] OpPlus <= be.Op && be.Op <= OpShr
 //@   may_reject
 //@   noframe
 
 // A Binding destructures at most four names: the translator only builds wider tuples through
 // defineStmt, which rejects more than four results (postcondition proved there under C02/C07).
-//@ func (Binding).AddTo
+//@ func (Binding).AddTo (b, pp)
 //@   trusted_requires [bindings with more than four names are rejected by the translator (defineStmt)] len(b.Names) <= 4
 //@   may_reject
 //@   noframe
@@ -52,12 +52,12 @@ package coq
 
 //@ props C08
 
-//@ func pathToCoqPath
+//@ func pathToCoqPath (p)
 //@   ensures [dots and dashes become underscores] result == cpath(p)
-//@ func ImportToPath
+//@ func ImportToPath (pkgPath, pkgName)
 //@   ensures [file path is the mapped package path plus .v] multi(cpath(pkgPath)) ==> result == cpath(pkgPath) + ".v"
 //@ ghost func coqdeclOf(d ImportDecl) string = pure(string, "coqdecl", d)
-//@ func (ImportDecl).CoqDecl
+//@ func (ImportDecl).CoqDecl (decl)
 //@   ghost_ensures result == coqdeclOf(decl)
 //@   ensures [Require line names the mapped import path] !decl.Trusted ==> result == "From Goose Require " + slashdot(cpath(decl.Path)) + "."
 //@   ensures [trusted packages use the trusted namespace] decl.Trusted ==> result == "From Perennial.goose_lang.trusted Require Import " + slashdot(cpath(decl.Path)) + "."
@@ -72,7 +72,7 @@ package coq
 //@   ensures old(dupfree(x)) ==> dupfree(x)
 //@   ensures forall i int :: x.off <= i && i < x.off + len(x) ==> old(member(x, elemat(x, i)))
 
-//@ func (ImportDecls).PrintImports
+//@ func (ImportDecls).PrintImports (decls)
 //@   ensures_local [printed lines are sorted] sortedstr(ss)
 //@   ensures_local [each Require appears once] dupfree(ss)
 //@   ensures_local [exactly the Requires of the imports] forall k int :: 0 <= k && k < len(decls) ==> has(seen, coqdeclOf(decls[k]))
